@@ -176,13 +176,28 @@ theorem ntotal_step (s : State β) (op : Op β) : (step s op).ntotal = s.ntotal 
       | nil => rfl
       | cons p ps ih => simp only [List.foldl_cons]; rw [ih]; rfl
   | tell i v => rfl
+  | tellPending i => rfl
   | removeUnfinished => rfl
+
+/-- marking an already pending index pending again changes nothing -/
+theorem tellPending_of_mem_pending {s : State β} (h : Inv s) {i : Nat} (hi : i ∈ s.pending) :
+    tellPending s i = s := by
+  have hnt : i ∉ s.todo := fun ht => h.disj_tp i ht hi
+  simp [tellPending, hi, List.erase_of_not_mem hnt]
+
+theorem inv_tellPending_valid {s : State β} (h : Inv s) {i : Nat} (hi : i < s.ntotal)
+    (hd : i ∉ keys s) : Inv (tellPending s i) := by
+  rcases (h.cover i).1 hi with ht | hp | hk
+  · exact inv_tellPending h ht
+  · rw [tellPending_of_mem_pending h hp]; exact h
+  · exact absurd hk hd
 
 theorem inv_step {s : State β} (h : Inv s) (op : Op β) (hv : ValidOp s op) :
     Inv (step s op) := by
   cases op with
   | ask n c => exact inv_ask h n c
   | tell i v => exact inv_tell h v hv
+  | tellPending i => exact inv_tellPending_valid h hv.1 hv.2
   | removeUnfinished => exact inv_removeUnfinished h
 
 /-- every op of the list is valid in the state it is applied to -/
@@ -250,6 +265,7 @@ theorem lookup_run :
     cases op with
     | ask n c => simp [step, data_ask]
     | removeUnfinished => simp [step, removeUnfinished]
+    | tellPending j => simp [step, tellPending]
     | tell j v =>
       simp only [step, tell]
       by_cases hji : j = i
